@@ -255,6 +255,17 @@ def part_argmin(ctx):
     ctx.floor("R-ARGMIN", "clauses", n + len([b for b in ctx.brokens if b["rule"] == "R-ARGMIN"]), 3)
 
 
+def part_drain(only):
+    def run(ctx):
+        from . import rules_iterloop
+        n = rules_iterloop.check(ctx, module("release", "ssa"), "release", only)
+        ctx.explanation += ("R-DRAIN: the loop that drains the child iterator into the output array stores the element it just tested, before the single "
+                            "iterStepChild, at a counter running 0,1,2,..; with R-BITPROV iter-init/iter-step (start = smallest child, step = next child in index "
+                            "order, 0 after the last) this gives by induction that the output is the documented child set in increasing order. ")
+        ctx.floor("R-DRAIN", "drain loops", n, len(only))
+    return run
+
+
 def part_fmt(ctx):
     from . import rules_fmt
     n = rules_fmt.check(ctx, module("release", "ssa"), "release")
@@ -276,9 +287,9 @@ PARTS = {
     "C01": [part_guards("C01"), part_bitprov("validity"), part_tables(["T7"], {"T7": ["isBaseCellPentagonArr"]}), part_cform("C01"), part_wit("C01")],
     "C02": [part_guards("C02"), part_argmin, part_bitprov("indexops", "C02"), part_tables(["T6", "T16", "T19"]), part_wit("C02")],
     "C03": [part_guards("C03"), part_argmin, part_bitprov("validity"), part_bitprov("indexops", "C03"), part_tables(["T7", "T4", "T5", "T9", "T19"], {"T7": ["isBaseCellPentagonArr", "pentagonCount", "res0CellCount", "getRes0Cells", "getPentagons", "baseCellNeighbors:rows", "baseCellNeighbor60CCWRots:rows"]}), part_cform("C03"), part_wit("C03")],
-    "C04": [part_guards("C04"), part_bitprov("indexops", "C04"), part_cform("C04"), part_tables(["T7"], {"T7": ["isBaseCellPentagonArr"]}), part_wit("C04")],
+    "C04": [part_guards("C04"), part_bitprov("indexops", "C04"), part_drain(["cellToChildren"]), part_cform("C04"), part_tables(["T7"], {"T7": ["isBaseCellPentagonArr"]}), part_wit("C04")],
     "C05": [part_guards("C05"), part_bitprov("indexops", "C05"), part_tables(["T1", "T2", "T3", "T10", "T11", "T7", "T19"], {"T7": ["baseCellNeighbors", "baseCellNeighbor60CCWRots"]}), part_cform("C05"), part_hashmod(["_gridDiskDistancesInternal"], 1), part_wit("C05")],
-    "C06": [part_guards("C06"), part_bitprov("indexops", "C06"), part_bw("C06"), part_hashmod(["compactCells"], 2)],
+    "C06": [part_guards("C06"), part_bitprov("indexops", "C06"), part_drain(["uncompactCells"]), part_bw("C06"), part_hashmod(["compactCells"], 2)],
     "C08": [part_tables(["T5", "T9", "T13"]), part_cform("C08"), part_wit("C08")],
     "C09": [part_guards("C09"), part_bitprov("indexops", "C09"), part_tables(["T1", "T2", "T3", "T10", "T14"]), part_ovf, part_wit("C09")],
     "C10": [part_guards("C10"), part_bitprov("indexops", "C10"), part_tables(["T8", "T12"]), part_cform("C10"), part_wit("C10")],
